@@ -91,6 +91,9 @@ ZPRELUDE = r'''
 impl zeroize::Zeroize for X { fn zeroize(&mut self) {} }
 pub struct Z<TT: ?Sized>(pub u8, pub PhantomData<TT>);
 impl<TT: ?Sized> Z<TT> { pub fn new(v: u8) -> Self { Z(v, PhantomData) } }
+/// an inherent method named like the trait method: method-call syntax `x.zeroize()` picks THIS one, the fully qualified
+/// `Zeroize::zeroize(x)` (option `fqs`) the trait's - so the two call styles are observable (log entry 50 + value vs value)
+impl<TT: ?Sized> Z<TT> { pub fn zeroize(&mut self) { LOG.with(|l| l.borrow_mut().push(50 + self.0)); self.0 = 0; } }
 impl<TT: ?Sized> zeroize::Zeroize for Z<TT> { fn zeroize(&mut self) { LOG.with(|l| l.borrow_mut().push(self.0)); self.0 = 0; } }
 impl<TT: ?Sized> Drop for Z<TT> { fn drop(&mut self) { LOG.with(|l| l.borrow_mut().push(100 + self.0)); } }
 impl<TT: ?Sized> Clone for Z<TT> { fn clone(&self) -> Self { LOG.with(|l| l.borrow_mut().push(self.0)); Z(self.0, PhantomData) } }
